@@ -9,7 +9,7 @@
 //! lattice domains). See NOTES.md for the tolerance derivations.
 
 use proptest::prelude::*;
-use rten_imageproc::{convex_hull, min_area_rect, simplify_polygon, simplify_polyline, PointF};
+use rten_imageproc::{convex_hull, min_area_rect, simplify_polygon, simplify_polyline, PointF, Vec2};
 use serde::{Deserialize, Serialize};
 use vc_imageproc::geom::{self, P};
 use vcore::{Check, Verdict};
@@ -108,47 +108,75 @@ fn icross(o: (i64, i64), a: (i64, i64), b: (i64, i64)) -> i64 {
     (a.0 - o.0) * (b.1 - o.1) - (a.1 - o.1) * (b.0 - o.0)
 }
 
-/// Root-cause classification of a hull that misses input points: rten sorts
-/// by an f32 cosine and relies on *equal* cosines to order collinear points by
-/// distance. Points on the first ray out of the start point (hull[0] ->
-/// hull[1]) whose cosines differ in the last bit are visited far-before-near,
-/// and the scan then pops the far one (turn == 0); with inexact (scaled)
-/// coordinates the same mis-ordering on any ray leaves both points in the
-/// outline, which then folds back along the ray, and further approximately-zero
-/// turns can pop the far point. Recognised (only consulted when a validity
-/// predicate has already failed) by (A) a non-vertex input point beyond a hull
-/// vertex on the same ray from hull[0], or (B) two hull vertices on one ray
-/// from hull[0] with the farther one first.
-fn ray_misorder(pts: &[PointF], hull: &[PointF]) -> bool {
-    if hull.len() < 2 {
-        return false;
-    }
-    let hp = to_p(hull);
-    let m = hp[0];
-    // b lies on the ray m -> a (within 1e-3 rad), and is nearer / farther than a
-    let on_ray = |a: P, b: P| -> Option<std::cmp::Ordering> {
-        let (la, lb) = (geom::dist(m, a), geom::dist(m, b));
-        let dot = (a.x - m.x) * (b.x - m.x) + (a.y - m.y) * (b.y - m.y);
-        if la > 0.0 && lb > 0.0 && dot > 0.0 && geom::cross(m, a, b).abs() <= 1e-3 * la * lb {
-            lb.partial_cmp(&la)
+/// Root-cause classification, consulted only after a validity predicate has
+/// failed. rten's Graham scan (a) sorts by the f32 cosine of the angle around
+/// the start point hull[0] (ties: distance) and (b) pops while an f32 cross
+/// product is <= 0. It is only correct if (a) is the true angular order with
+/// collinear points nearest-first and (b) has the true sign. The rounded
+/// cosines of collinear points often differ in the last bit, and the f32 cross
+/// product of a nearly collinear triple can have the wrong sign; either makes
+/// the scan pop an extreme point or leave a folded outline.
+///
+/// This function replays rten's scan (same public Vec2 operations, same
+/// comparator) and reports whether any sort comparison or any turn test that
+/// the run actually evaluated differs from the exact result (f64 cross
+/// products of the f32 coordinates are exact). If none does, every decision
+/// was right and the failure has another cause.
+fn f32_predicate_diverged(pts: &[PointF], hull: &[PointF]) -> bool {
+    let Some(&m) = hull.first() else { return false };
+    let p64 = |q: PointF| geom::p(q.x as f64, q.y as f64);
+    let mp = p64(m);
+    let angle = |q: PointF| -> f32 {
+        if same(q, m) {
+            f32::MIN
         } else {
-            None
+            m.vec_to(q).normalized().dot(Vec2::from_yx(0., 1.))
         }
     };
-    // (A) an input point that is not a hull vertex lies beyond a hull vertex on
-    // the same ray from hull[0]: the nearer of two collinear points was kept
-    let dropped = pts.iter().zip(to_p(pts)).any(|(q32, q)| {
-        !hull.iter().any(|v| same(*v, *q32)) && (1..hp.len()).any(|i| on_ray(hp[i], q) == Some(std::cmp::Ordering::Greater))
+    let mut sorted: Vec<(PointF, f32)> = pts.iter().map(|&q| (q, angle(q))).collect();
+    sorted.sort_by(|(a_pt, a_angle), (b_pt, b_angle)| {
+        if a_angle == b_angle {
+            m.vec_to(*a_pt).length().total_cmp(&m.vec_to(*b_pt).length())
+        } else {
+            a_angle.total_cmp(b_angle)
+        }
     });
-    // (B) two hull vertices on one ray from hull[0], the farther one first: the
-    // outline folds back along the ray
-    let folded = (1..hp.len()).any(|i| (i + 1..hp.len()).any(|j| on_ray(hp[i], hp[j]) == Some(std::cmp::Ordering::Less)));
-    dropped || folded
+    sorted.dedup_by(|a, b| same(a.0, b.0));
+    // (a) the sorted sequence must be in exact angular order, nearest first
+    for w in sorted.windows(2) {
+        let (a, b) = (w[0].0, w[1].0);
+        if same(a, m) {
+            continue;
+        }
+        let c = geom::cross(mp, p64(a), p64(b));
+        let ok = if c != 0.0 { c > 0.0 } else { geom::dist(mp, p64(a)) <= geom::dist(mp, p64(b)) };
+        if !ok {
+            return true;
+        }
+    }
+    // (b) replay the scan with rten's f32 turn test
+    let mut st: Vec<PointF> = Vec::new();
+    for &(q, _) in &sorted {
+        while st.len() >= 2 {
+            let (prev2, prev) = (st[st.len() - 2], st[st.len() - 1]);
+            let turn32 = prev2.vec_to(q).cross_product_norm(prev.vec_to(q));
+            let turn64 = geom::cross(p64(q), p64(prev2), p64(prev));
+            if (turn32 > 0.) != (turn64 > 0.) {
+                return true;
+            }
+            if turn32 > 0. {
+                break;
+            }
+            st.pop();
+        }
+        st.push(q);
+    }
+    false
 }
 
 fn hull_sig(kind: &str, dom: &str, pts: &[PointF], hull: &[PointF]) -> String {
-    if ray_misorder(pts, hull) {
-        format!("hull:collinear-ray-misordered{dom}")
+    if f32_predicate_diverged(pts, hull) {
+        format!("hull:f32-predicate-inexact{dom}")
     } else {
         format!("hull:{kind}{dom}")
     }
@@ -528,9 +556,9 @@ fn oracle_rect(c: &Case) -> Verdict {
         // min_area_rect assumes every hull edge is oriented the same way; a
         // hull that folds back along a ray (below the hull check's tolerance)
         // makes it pick a degenerate rectangle: same root cause as the hull
-        if ray_misorder(&pts, &hull) {
+        if f32_predicate_diverged(&pts, &hull) {
             let dom = if c.strict() { "@int-grid" } else { "@float" };
-            return Verdict::fail(format!("hull:collinear-ray-misordered{dom}"), format!("(via min_area_rect) {d}"));
+            return Verdict::fail(format!("hull:f32-predicate-inexact{dom}"), format!("(via min_area_rect) {d}"));
         }
         return Verdict::fail(s, d);
     }
@@ -670,6 +698,8 @@ fn case() -> impl Strategy<Value = Case> {
 }
 
 fn main() {
+    // the check itself needs well under 1 GiB
+    vc_imageproc::limit_address_space(6 << 30);
     let mut ck = Check::new("C35");
     ck.rule(
         "Case = (0..=40 lattice points (i16 x,y) from one of 8 classes: uniform |c|<=20, uniform |c|<=3, collinear (+0..2 \
